@@ -276,20 +276,55 @@ func genMotif(rt *rapid.T, sp GraphSpec) (int, []iedge) {
 // third of the cases k is beyond 256 (byte-sized counters, degree-packed sort keys: seeded/r2-m11 needs a non-source
 // node with >= 257 out-edges next to another source). Cheap: few nodes, many identical edges.
 func genBundle(rt *rapid.T, sp GraphSpec) (int, []iedge) {
+	huge := sp.MaxM >= 16 && chance(rt, "bundle_huge", 1, 3) // never under a spec that asks for tiny graphs
 	fam := FamDag
-	if rapid.Bool().Draw(rt, "bundle_cyclic") {
+	if !huge && rapid.Bool().Draw(rt, "bundle_cyclic") {
 		fam = FamConn
 	}
 	n, es := genFamily(rt, fam, GraphSpec{MaxN: 6, MaxM: 8, SelfLoops: false, Parallel: true})
 	k := rapid.IntRange(2, 6).Draw(rt, "bundle_k")
-	if sp.MaxM >= 16 && chance(rt, "bundle_huge", 1, 3) { // never under a spec that asks for tiny graphs
-		k = rapid.IntRange(250, 300).Draw(rt, "bundle_k_huge")
+	at := pick(rt, "bundle_edge", len(es))
+	if huge {
+		// A bundle of 250+ copies must stay a SHORT edge: as a long edge it puts 250+ helper nodes into every band it
+		// crosses and the ordering phase then needs minutes (measured; a cost cliff, not a hang). In an acyclic skeleton an
+		// edge u->v is short under both layerers when v cannot be reached from u any other way, so only such edges qualify.
+		var ok []int
+		for i, e := range es {
+			if !reachableWithout(es, i, e[0], e[1]) {
+				ok = append(ok, i)
+			}
+		}
+		if len(ok) > 0 {
+			at = ok[pick(rt, "bundle_short_edge", len(ok))]
+			k = rapid.IntRange(250, 300).Draw(rt, "bundle_k_huge")
+		}
 	}
-	e := es[pick(rt, "bundle_edge", len(es))]
+	e := es[at]
 	for i := 1; i < k; i++ {
 		es = append(es, e)
 	}
 	return n, es
+}
+
+// reachableWithout: is `to` reachable from `from` in es without using any copy of edge number skip?
+func reachableWithout(es []iedge, skip, from, to int) bool {
+	seen := map[int]bool{from: true}
+	stack := []int{from}
+	for len(stack) > 0 {
+		u := stack[len(stack)-1]
+		stack = stack[:len(stack)-1]
+		for _, e := range es {
+			if e == es[skip] || e[0] != u || seen[e[1]] {
+				continue
+			}
+			if e[1] == to {
+				return true
+			}
+			seen[e[1]] = true
+			stack = append(stack, e[1])
+		}
+	}
+	return false
 }
 
 func iota_(n int) []int {
